@@ -8,8 +8,14 @@ import re
 
 LEAN = os.path.join(os.path.dirname(os.path.dirname(os.path.abspath(__file__))), 'lean')
 
-MIN = {'C01': 4, 'C02': 3, 'C03': 2, 'C04': 17, 'C05': 7, 'C06': 8, 'C07': 8, 'C08': 15, 'C09': 4, 'C10': 20, 'C11': 7, 'C12': 3, 'C13': 24,
-       'C14': 12, 'C15': 15, 'C16': 6, 'C17': 6, 'C18': 5, 'C19': 10}
+MIN = {'C01': 10, 'C02': 18, 'C03': 6, 'C04': 17, 'C05': 7, 'C06': 9, 'C07': 19, 'C08': 21, 'C09': 4, 'C10': 51, 'C11': 8, 'C12': 3,
+       'C13': 24, 'C14': 16, 'C15': 22, 'C16': 28, 'C17': 63, 'C18': 5, 'C19': 15}
+
+# the headline theorems: each must be present by name (and is audited like the others)
+HEADLINE = {
+    'C01': ['PMC.C01.ctl_exact', 'PMC.C01.ctl_exact_memo'], 'C02': ['PMC.C02.ltl_exact', 'PMC.C02.ltl_excluded_iff_lasso'],
+    'C03': ['PMC.C03.ctls_exact', 'PMC.C03.ctls_exact_partial', 'PMC.C03.namesOK_of_wf'],
+}
 
 EXTRA_MODULES = {}
 
@@ -29,4 +35,7 @@ def get(pid):
         mods.append('PMC.Properties.' + fn[:-5])
     if len(ths) < MIN.get(pid, 0):
         raise RuntimeError('%s: expected at least %d property theorems, found %d' % (pid, MIN.get(pid, 0), len(ths)))
+    for h in HEADLINE.get(pid, []):
+        if h not in ths:
+            raise RuntimeError('%s: headline theorem %s is missing' % (pid, h))
     return (mods + EXTRA_MODULES.get(pid, []), ths)
